@@ -31,8 +31,8 @@ UNDER = {"td_int": "int", "td_uchar": "uchar", "td_ullong": "ullong", "td_td_sho
          "size_t": "ulong", "ptrdiff_t": "long", "uintptr_t": "ulong",
          "int_fast16_t": "long", "uint_fast32_t": "ulong", "int_least16_t": "short", "uint_least8_t": "uchar",
          "intmax_t": "long",
-         "E_s": "int", "E_u": "uint", "E_l": "ulong"}
-ENUM_TAG = {"E_s", "E_u", "E_l"}
+         "E_s": "int", "enum_E_u": "uint", "E_l": "ulong"}
+ENUM_TAG = {"E_s", "enum_E_u", "E_l"}
 
 # by-value aggregates: (field name, scalar id, array length or 0); sizes/classes in the name
 STRUCTS = {
@@ -42,7 +42,7 @@ STRUCTS = {
     "S8d": [("a", "double", 0)], "S8m": [("a", "int", 0), ("b", "float", 0)],
     "S9": [("a", "char", 8), ("b", "char", 0)],
     "S12i": [("a", "int", 3)], "S12f": [("a", "float", 3)],
-    "S12m": [("a", "int", 0), ("b", "float", 0), ("c", "int", 0)],
+    "struct_S12m": [("a", "int", 0), ("b", "float", 0), ("c", "int", 0)],
     "S15": [("a", "char", 15)], "S16i": [("a", "long", 0), ("b", "long", 0)],
     "S16d": [("a", "double", 0), ("b", "double", 0)], "S16id": [("a", "long", 0), ("b", "double", 0)],
     "S16di": [("a", "double", 0), ("b", "long", 0)], "S16f": [("a", "float", 4)],
@@ -54,17 +54,17 @@ STRUCTS = {
     "TS16": [("a", "double", 0), ("b", "long", 0)],
 }
 STRUCT_SIZE = {"S1": 1, "S2": 2, "S3": 3, "S4i": 4, "S4f": 4, "S7": 7, "S8i": 8, "S8f": 8, "S8d": 8, "S8m": 8,
-               "S9": 9, "S12i": 12, "S12f": 12, "S12m": 12, "S15": 15, "S16i": 16, "S16d": 16, "S16id": 16,
+               "S9": 9, "S12i": 12, "S12f": 12, "struct_S12m": 12, "S15": 15, "S16i": 16, "S16d": 16, "S16id": 16,
                "S16di": 16, "S16f": 16, "S16m": 16, "S17": 17, "S24i": 24, "S24d": 24, "S32d": 32, "S32m": 32,
                "S33": 33, "S64i": 64, "S64d": 64, "TS16": 16}
 UNIONS = {
     "U4": [("i", "int", 0), ("f", "float", 0), ("c", "char", 4)],
-    "U8": [("l", "long", 0), ("i", "int", 0), ("c", "char", 8)],
+    "union_U8": [("l", "long", 0), ("i", "int", 0), ("c", "char", 8)],
     "U8d": [("d", "double", 0), ("f", "float", 0)],
     "U16": [("l", "long", 2), ("d", "double", 0)],
     "U24": [("d", "double", 3), ("l", "long", 0)],
 }
-UNION_SIZE = {"U4": 4, "U8": 8, "U8d": 8, "U16": 16, "U24": 24}
+UNION_SIZE = {"U4": 4, "union_U8": 8, "U8d": 8, "U16": 16, "U24": 24}
 
 # declarator templates: {n} = declared name (may be empty for casts / unnamed parameters)
 DECL = {
@@ -134,7 +134,7 @@ def prelude(cross=False):
     L += ["typedef int td_int;", "typedef unsigned char td_uchar;", "typedef unsigned long long td_ullong;",
           "typedef short td_short;", "typedef td_short td_td_short;",
           "enum E_s { E_s_A = -1, E_s_B = 0, E_s_C = 0x7fffffff };",
-          "enum E_u { E_u_A = 0, E_u_B = 0xFFFFFFFF };",
+          "enum enum_E_u { E_u_A = 0, E_u_B = 0xFFFFFFFF };",
           "enum E_l { E_l_A = 0, E_l_B = 0xFFFFFFFFFFFFFFFF };"]
     for sid, fields in STRUCTS.items():
         body = " ".join("%s %s%s;" % (C_SCALAR[t], f, "[%d]" % n if n else "") for f, t, n in fields)
